@@ -356,3 +356,8 @@ for kind, node in COMP_NODES.items():
         c.setup = _csetup
         c.custom_replay = "contracts.c03_for.replay_iterable_effects"
         con.cases.append(c)
+
+
+# C10 ("constant if/for ... evaluates to exactly the values CPython produces, or is rejected"): a for-else whose loop ran without
+# break executes the else block in CPython -- the unrolled loop has no place for it, so the loop must be rejected
+contract("cohdl._compiler.frontend._prepare_ast:PrepareAst.apply_impl", ("C10",))
